@@ -93,6 +93,21 @@ var c06BodyTpls = func() []c06BodyTpl {
 			return hcldec.ObjectSpec{"blks": &hcldec.BlockListSpec{TypeName: "blk", Nested: hcldec.ObjectSpec{"v": &hcldec.AttrSpec{Name: "v", Type: cty.String},
 				"inner": &hcldec.BlockListSpec{TypeName: "inner", Nested: hcldec.ObjectSpec{"w": &hcldec.AttrSpec{Name: "w", Type: cty.String}}}}}}
 		}, A: strs("x"), B: strs("y"), Dyn: true})
+	// the same with the enclosing for_each (variable o) carrying a different mark,
+	// and with the marked variable in the enclosing position
+	nestedSpec := func() hcldec.Spec {
+		return hcldec.ObjectSpec{"blks": &hcldec.BlockListSpec{TypeName: "blk", Nested: hcldec.ObjectSpec{"v": &hcldec.AttrSpec{Name: "v", Type: cty.String},
+			"inner": &hcldec.BlockListSpec{TypeName: "inner", Nested: hcldec.ObjectSpec{"w": &hcldec.AttrSpec{Name: "w", Type: cty.String}}}}}}
+	}
+	out = append(out, c06BodyTpl{Name: "dyn-nested-foreach/outer-other-mark", Src: "dynamic \"blk\" {\n  for_each = o\n  content {\n    v = \"c\"\n    dynamic \"inner\" {\n      for_each = k\n      content {\n        w = inner.value\n      }\n    }\n  }\n}\n",
+		Spec: nestedSpec, A: strs("x"), B: strs("y"), Dyn: true})
+	out = append(out, c06BodyTpl{Name: "dyn-nested-foreach-count/outer-other-mark", Src: "dynamic \"blk\" {\n  for_each = o\n  content {\n    v = \"c\"\n    dynamic \"inner\" {\n      for_each = k\n      content {\n        w = \"c\"\n      }\n    }\n  }\n}\n",
+		Spec: nestedSpec, A: strs("x"), B: strs("x", "y"), Dyn: true})
+	out = append(out, c06BodyTpl{Name: "dyn-nested-foreach/outer-marked-inner-other-mark", Src: "dynamic \"blk\" {\n  for_each = k\n  content {\n    v = blk.value\n    dynamic \"inner\" {\n      for_each = o\n      content {\n        w = \"${blk.value}-${inner.value}\"\n      }\n    }\n  }\n}\n",
+		Spec: nestedSpec, A: strs("x"), B: strs("y"), Dyn: true})
+	out = append(out, c06BodyTpl{Name: "attr-next-to-other-mark", Src: "a = [k, o]\n", Spec: func() hcldec.Spec {
+		return hcldec.ObjectSpec{"a": &hcldec.AttrSpec{Name: "a", Type: cty.DynamicPseudoType}}
+	}, A: strv("x"), B: strv("y")})
 	return out
 }()
 
@@ -105,7 +120,7 @@ func c06BodyCase(c *core.Case) {
 	}
 	spec := tpl.Spec()
 	decode := func(val cty.Value) (cty.Value, hcl.Diagnostics) {
-		ctx := ctxWith(map[string]cty.Value{"k": val.Mark(secretMark)})
+		ctx := ctxWith(map[string]cty.Value{"k": val.Mark(secretMark), "o": cty.ListVal([]cty.Value{cty.StringVal("o1"), cty.StringVal("o2")}).Mark("another mark")})
 		body := f.Body
 		if tpl.Dyn {
 			body = dynblock.Expand(body, ctx)
